@@ -686,6 +686,94 @@ func init() {
 				}
 			}
 		}
+		// (b4) THE VERY FIRST CALL of a fresh process: one call per child, on the ids at the ends of the tables and of the
+		// version families (a "previous hit" hint with a sentinel, a lazily built index that misses an end)
+		if exe, err := os.Executable(); err == nil {
+			var firsts []*call
+			ends := []string{tblActive[0], tblActive[len(tblActive)-1], tblDeprecated[0], tblDeprecated[len(tblDeprecated)-1]}
+			for _, f := range []([][]string){tblRanges[0], tblRanges[len(tblRanges)-1], tblRanges[rng.Intn(len(tblRanges))]} {
+				ends = append(ends, f[0][0], f[len(f)-1][len(f[len(f)-1])-1])
+			}
+			for _, id := range ends {
+				id = strings.TrimSuffix(id, "+")
+				firsts = append(firsts, &call{fn: 2, list: []string{id}}, &call{fn: 1, expr: strings.ToLower(id)})
+			}
+			firsts = append(firsts,
+				&call{fn: 0, expr: "MIT WITH " + tblExceptions[len(tblExceptions)-1], list: []string{"MIT WITH " + tblExceptions[len(tblExceptions)-1]}},
+				&call{fn: 0, expr: "MIT WITH " + tblExceptions[0], list: []string{"MIT"}},
+				&call{fn: 0, expr: ends[len(ends)-1] + "+", list: []string{ends[len(ends)-2]}},
+				&call{fn: 0, expr: ends[len(ends)-2] + "+", list: []string{ends[len(ends)-1]}})
+			if !thorough() && len(firsts) > 16 {
+				rng.Shuffle(len(firsts), func(i, j int) { firsts[i], firsts[j] = firsts[j], firsts[i] })
+				firsts = firsts[:16]
+			}
+			for _, c := range firsts {
+				want := c.run()
+				got, err := runChild(exe, []*call{c}, []int{0})
+				res.Evaluations += 2
+				count("first_call_of_a_process")
+				if err != nil {
+					res.Notes = append(res.Notes, "first-call child failed to run: "+err.Error())
+					break
+				}
+				if got[0] != want {
+					fail(failure{Stream: "oracle", What: "as the very first call of a fresh process a call answers differently than later in a process: " + c.String(), Case: &kase{Expr: c.expr, ExprHex: hx(c.expr), Allowed: c.list, Extra: map[string]string{"fn": itoa(c.fn), "history": "none (first call of the process)"}}, Impl: show(got[0]), Expected: show(want)})
+					break
+				}
+			}
+		}
+		// (b5) MANY GOROUTINES IN ONE FAMILY at the same moment (shared "last hit" hints are read twice exactly then): range
+		// comparisons inside three families, every goroutine its own order, all results equal to the sequential ones
+		{
+			var hot []*call
+			for _, fi := range []int{rng.Intn(len(tblRanges)), rng.Intn(len(tblRanges)), len(tblRanges) - 1} {
+				var ids []string
+				for _, gr := range tblRanges[fi] {
+					for _, x := range gr {
+						if !strings.HasSuffix(x, "+") && !strings.HasSuffix(x, "-or-later") {
+							ids = append(ids, x)
+						}
+					}
+				}
+				for i := 0; i < 10 && len(ids) > 0; i++ {
+					a, b := pick(ids), pick(ids)
+					hot = append(hot, &call{fn: 0, expr: a + "+", list: []string{b}}, &call{fn: 0, expr: a, list: []string{b + "+", "MIT"}})
+				}
+			}
+			want := make([]string, len(hot))
+			for i, c := range hot {
+				want[i] = c.run()
+			}
+			var wg sync.WaitGroup
+			var mu sync.Mutex
+			var bad *failure
+			rounds := scale(60, 400)
+			for gi := 0; gi < 16; gi++ {
+				wg.Add(1)
+				go func(gi int) {
+					defer wg.Done()
+					for r := 0; r < rounds; r++ {
+						for k := range hot {
+							i := (k*7 + gi*3 + r) % len(hot)
+							if got := hot[i].run(); got != want[i] {
+								mu.Lock()
+								if bad == nil {
+									bad = &failure{Stream: "oracle", What: "with many goroutines comparing ids of the same families at once, a call returned a different result than the sequential call: " + hot[i].String(), Case: &kase{Expr: hot[i].expr, ExprHex: hx(hot[i].expr), Allowed: hot[i].list, Extra: map[string]string{"fn": "0"}}, Impl: show(got), Expected: show(want[i])}
+								}
+								mu.Unlock()
+								return
+							}
+						}
+					}
+				}(gi)
+			}
+			wg.Wait()
+			res.Evaluations += 16 * rounds * len(hot)
+			countN("hot_family_concurrent_calls", 16*rounds*len(hot))
+			if bad != nil {
+				fail(*bad)
+			}
+		}
 		// (c) concurrency over shared argument slices
 		g := scale(32, 64)
 		for _, procs := range []int{runtime.NumCPU(), 2} {
